@@ -97,7 +97,7 @@ PROPS = {
                 note="One genuine defect was repaired (fix: commit f6eb44f), one is recorded (known-findings.txt: stale-output deletion interrupted by an event-callback panic)."),
     "C23": dict(level="exploration", parts=[dict(engine="e1", quick=2500, thorough=60000)],
                 text="Histories of the single-handle classes (structs, interning with reclamation, LRU eviction, fixpoint and fallback cycles, specify, accumulators; one third with an injected panic) executed under a quarantining, poisoning global allocator: freed blocks are poisoned and parked, so a read after free yields poison (checked on every value read back from salsa), a write after free is detected when the block leaves quarantine, a free of a quarantined block is a double free; references returned by q_ref are held across later requests and revalidated until the next mutable borrow; on a sample the live bytes left after dropping the database must not grow from one execution to the next. A segfault/abort of a worker is attributed to its seed.",
-                note="Dynamic detection on sampled histories, not a proof of absence; single-threaded only (the concurrent engine does not run under the guard); no Miri sample in this round."),
+                note="Dynamic detection on sampled histories, not a proof of absence; single-threaded only (the concurrent engine does not run under the guard); the thorough tier adds a Miri sample of the single-handle classes (guard off there)."),
     "C26": dict(level="exploration", parts=[dict(engine="e1p", quick=6000, thorough=100000)],
                 text="Histories with SnapshotRestore steps (serde_json round trip of the whole database into a fresh database of the same type = crash/restart with only durable state surviving) at arbitrary points; every persisted function returns the reference value on the restored database, unchanged persisted results are not re-executed (justification model), the history continues with values = reference.",
                 note="q_noeq / q_lru are deliberately not persisted (dependency flattening); recorded findings are matched by their own classes."),
@@ -242,8 +242,46 @@ def run_check(prop, tier):
                    "--max-s", str(part.get("max_s_" + tier, 100000)), "--known", ",".join(known_classes(prop))]
             procs.append((w, out, engine, subprocess.Popen(cmd, env=ENV, stdout=subprocess.PIPE, stderr=subprocess.PIPE, text=True)))
         run_part(procs, results, harness_errors, aborts)
-    engine = parts[0]["engine"]
-    finish_check(prop, tier, cfg, parts, seed, t0, out_root, all_outs, results, harness_errors, aborts)
+    miri = None
+    if prop == "C23" and tier == "thorough" and os.environ.get("VERIF_NO_MIRI") is None:
+        miri = miri_sample(out_root, seed, harness_errors)
+    finish_check(prop, tier, cfg, parts, seed, t0, out_root, all_outs, results, harness_errors, aborts, miri)
+
+
+MIRI_PROPS = ["C01", "C05", "C07", "C10", "C11", "C12", "C13", "C15"]
+
+
+def miri_sample(out_root, seed, harness_errors):
+    """C23 thorough: a sample of the single-handle classes under Miri (the quarantining allocator
+    is off there: it would hide frees from Miri). One process per class, in parallel."""
+    env = dict(ENV, CARGO_TARGET_DIR=os.path.join(TARGET, "miri"), MIRIFLAGS="-Zmiri-disable-isolation -Zmiri-ignore-leaks")
+    manifest = os.path.join(ROOT, "engines/e1/Cargo.toml")
+    b = subprocess.run(["cargo", "+nightly", "miri", "run", "--offline", "--release", "--manifest-path", manifest, "--", "rule", "C01"], env=env, stdout=subprocess.PIPE, stderr=subprocess.STDOUT, text=True)
+    if b.returncode != 0:
+        harness_errors.append("miri build/run failed: " + b.stdout[-400:])
+        return None
+    procs = []
+    n = int(os.environ.get("VERIF_MIRI_SEEDS", "8"))
+    for p in MIRI_PROPS:
+        out = os.path.join(out_root, f"miri-{p}")
+        cmd = ["cargo", "+nightly", "miri", "run", "--offline", "--release", "--manifest-path", manifest, "--",
+               "run", "--prop", p, "--base", str(seed), "--from", "0", "--to", str(n), "--out", out, "--selfcheck", "0"]
+        procs.append((p, out, subprocess.Popen(cmd, env=env, stdout=subprocess.PIPE, stderr=subprocess.STDOUT, text=True)))
+    res = {"runs": 0, "classes": [], "ub": []}
+    for p, out, pr in procs:
+        so, _ = pr.communicate()
+        if pr.returncode != 0:
+            cur = [f for f in os.listdir(out) if f.startswith("cur.")] if os.path.isdir(out) else []
+            seedinfo = open(os.path.join(out, cur[0])).read().split() if cur else [p, "?"]
+            kind = "Undefined Behavior" if "Undefined Behavior" in so else "abnormal exit"
+            res["ub"].append({"prop": p, "seed": seedinfo[-1], "kind": kind, "tail": so[-600:]})
+        else:
+            try:
+                res["runs"] += json.load(open(os.path.join(out, "result.json")))["runs"]
+                res["classes"].append(p)
+            except Exception as e:
+                harness_errors.append(f"miri sample {p}: {e}")
+    return res
 
 
 HANG_S = float(os.environ.get("VERIF_HANG_S", "120"))
@@ -290,7 +328,7 @@ def run_part(procs, results, harness_errors, aborts):
         results.append(r)
 
 
-def finish_check(prop, tier, cfg, parts, seed, t0, out_root, all_outs, results, harness_errors, aborts):
+def finish_check(prop, tier, cfg, parts, seed, t0, out_root, all_outs, results, harness_errors, aborts, miri=None):
     engine = parts[0]["engine"]
     runs = sum(r["runs"] for r in results)
     steps = sum(r["steps"] for r in results)
@@ -366,6 +404,13 @@ def finish_check(prop, tier, cfg, parts, seed, t0, out_root, all_outs, results, 
         else:
             harness_errors.append(f"worker {w} failed rc={rc}: {se[-500:]}")
 
+    if miri:
+        for u in miri["ub"]:
+            os.makedirs(rep_dir, exist_ok=True)
+            dst = os.path.join(rep_dir, f"{prop}-miri-{u['prop']}-{u['seed']}.json")
+            g = subprocess.run([sim_bin("e1"), "gen", "--prop", u["prop"], "--seed", str(u["seed"]), "--tier", "quick"], env=ENV, stdout=subprocess.PIPE, text=True)
+            open(dst, "w").write(g.stdout)
+            confirmed.append(({"seed": u["seed"], "classes": ["miri_" + u["kind"].replace(" ", "_").lower()], "detail": f"Miri reported {u['kind']} while running class {u['prop']} seed {u['seed']}: {u['tail'][-300:]}", "signature": f"{prop}|miri"}, dst))
     wall = time.time() - t0
     fault_kinds = {k: v for k, v in stats.items() if k.startswith("fault_") or k.startswith("faults_") or k.startswith("disturb_")}
     probes = {k: v for k, v in stats.items() if not k.startswith("runs_with_")}
@@ -393,6 +438,7 @@ def finish_check(prop, tier, cfg, parts, seed, t0, out_root, all_outs, results, 
             "workers": NPROC,
             "known_findings_hit": sorted(set(k[0] for k in known_hits)),
             "known_finding_runs": known_hit_counts,
+            "miri_sample": ({"runs_under_miri": miri["runs"], "classes": miri["classes"], "errors": len(miri["ub"])} if miri else None),
         },
         "assumptions": [
             "the reference interpreter (sim/src/refi.rs) is the specification of from-scratch results",
